@@ -1,4 +1,5 @@
 import DFV.Lemmas.C05Examples
+import DFV.Lemmas.C05Rot
 /-!
 # C05 — grad, div, curl and Laplacian are the textbook combinations of the derivatives
 
@@ -1090,79 +1091,11 @@ theorem div_curl_defined (v c : Fld) (hdims : DimsOk v) (hc : curl v = .ok c) : 
 
 /-- reversing a run negates the first-derivative stencil (and mirrors the position) -/
 theorem d1_reverse (h : Rat) (L : Nat) (g : Nat → Rat) (i : Nat) (hi : i < L) :
-    d1At h L (fun k => g (L - 1 - k)) i = - d1At h L g (L - 1 - i) := by
-  unfold d1At
-  by_cases h1 : L < 2
-  · simp [h1]
-  · by_cases h2 : L = 2
-    · subst h2
-      simp only [show ¬ ((2 : Nat) < 2) by omega, if_false, if_true]
-      simp only [show 2 - 1 - 1 = 0 by rfl, show 2 - 1 - 0 = 1 by rfl]
-      ring
-    · simp only [h1, h2, if_false]
-      by_cases h3 : i = 0
-      · subst h3
-        have e1 : ¬ (L - 1 - 0 = 0) := by omega
-        have e2 : L - 1 - 0 = L - 1 := by omega
-        have e3 : ¬ (L - 1 = 0) := by omega
-        simp only [if_true, e1, if_false, e2, e3]
-        have a1 : L - 1 - 1 = L - 2 := by omega
-        have a2 : L - 1 - 2 = L - 3 := by omega
-        rw [a1, a2]
-        ring
-      · by_cases h4 : i = L - 1
-        · subst h4
-          have e0 : L - 1 - (L - 1) = 0 := by omega
-          simp only [h3, if_false, if_true, e0]
-          have a1 : L - 1 - (L - 2) = 1 := by omega
-          have a2 : L - 1 - (L - 3) = 2 := by omega
-          rw [a1, a2]
-          ring
-        · have e1 : ¬ (L - 1 - i = 0) := by omega
-          have e2 : ¬ (L - 1 - i = L - 1) := by omega
-          simp only [h3, h4, e1, e2, if_false]
-          have a1 : L - 1 - (i + 1) = L - 1 - i - 1 := by omega
-          have a2 : L - 1 - (i - 1) = L - 1 - i + 1 := by omega
-          rw [a1, a2]
-          ring
+    d1At h L (fun k => g (L - 1 - k)) i = - d1At h L g (L - 1 - i) := d1At_reverse h L g i hi
 
 /-- reversing a run mirrors the second-derivative stencil -/
 theorem d2_reverse (h : Rat) (L : Nat) (g : Nat → Rat) (i : Nat) (hi : i < L) :
-    d2At h L (fun k => g (L - 1 - k)) i = d2At h L g (L - 1 - i) := by
-  unfold d2At
-  by_cases h1 : L < 3
-  · simp [h1]
-  · by_cases h2 : L = 3
-    · subst h2
-      simp only [show ¬ ((3 : Nat) < 3) by omega, if_false, if_true]
-      simp only [show 3 - 1 - 0 = 2 by rfl, show 3 - 1 - 1 = 1 by rfl, show 3 - 1 - 2 = 0 by rfl]
-      ring
-    · simp only [h1, h2, if_false]
-      by_cases h3 : i = 0
-      · subst h3
-        have e1 : ¬ (L - 1 - 0 = 0) := by omega
-        have e2 : L - 1 - 0 = L - 1 := by omega
-        have e3 : ¬ (L - 1 = 0) := by omega
-        simp only [if_true, e1, if_false, e2, e3]
-        have a1 : L - 1 - 1 = L - 2 := by omega
-        have a2 : L - 1 - 2 = L - 3 := by omega
-        have a3 : L - 1 - 3 = L - 4 := by omega
-        rw [a1, a2, a3]
-      · by_cases h4 : i = L - 1
-        · subst h4
-          have e0 : L - 1 - (L - 1) = 0 := by omega
-          simp only [h3, if_false, if_true, e0]
-          have a1 : L - 1 - (L - 2) = 1 := by omega
-          have a2 : L - 1 - (L - 3) = 2 := by omega
-          have a3 : L - 1 - (L - 4) = 3 := by omega
-          rw [a1, a2, a3]
-        · have e1 : ¬ (L - 1 - i = 0) := by omega
-          have e2 : ¬ (L - 1 - i = L - 1) := by omega
-          simp only [h3, h4, e1, e2, if_false]
-          have a1 : L - 1 - (i + 1) = L - 1 - i - 1 := by omega
-          have a2 : L - 1 - (i - 1) = L - 1 - i + 1 := by omega
-          rw [a1, a2]
-          ring
+    d2At h L (fun k => g (L - 1 - k)) i = d2At h L g (L - 1 - i) := d2At_reverse h L g i hi
 
 /-! ## Non-vacuity: concrete fields that meet the hypotheses
 
